@@ -74,8 +74,24 @@ def impl_eval(case):
     data = mciipm.vbs_list_to_bytes(recs, blocked=blocked)
     step = case.get('step', 1)
     parts, why = [], None
+    tmpdir = None
+    if case.get('real'):
+        import tempfile
+        tmpdir = tempfile.mkdtemp(prefix='verif_c09_')
     for n in range(0, len(data) + 1, step):
-        back, exc = read_all(mciipm.VbsReader(io.BytesIO(data[:n]), blocked=blocked))
+        if tmpdir:
+            # the surviving bytes as a REAL file on disk, opened 'rb' (what an interrupted transfer leaves behind)
+            import os
+            path = os.path.join(tmpdir, 'cut.bin')
+            with open(path, 'wb') as fh:
+                fh.write(data[:n])
+            with open(path, 'rb') as fh:
+                try:
+                    back, exc = read_all(mciipm.VbsReader(fh, blocked=blocked))
+                except Exception as ex:  # noqa  (raised by the constructor)
+                    back, exc = [], ex
+        else:
+            back, exc = read_all(mciipm.VbsReader(io.BytesIO(data[:n]), blocked=blocked))
         parts.append(f'{len(back)}:{common.sig(b"".join(back))}:{render_end(exc)}')
         if why is None and (n % 3 == 0 or len(data) - n < 12 or n < 12):
             # the list-returning convenience function on the same bytes: the same records, or the library error
@@ -96,8 +112,11 @@ def impl_eval(case):
                 why = f'cut at {n}: iteration ended with {type(exc).__name__}, not end-of-data or the library data error'
             elif isinstance(exc, mciipm.MciIpmDataError) and exc.record_number != k + 1:
                 why = f'cut at {n}: error reports record {exc.record_number}, the incomplete record is {k + 1}'
+    if tmpdir:
+        import shutil
+        shutil.rmtree(tmpdir, ignore_errors=True)
     return {'obs': 'ok ' + ';'.join(parts), 'violation': why, 'nontrivial': len(recs) > 0,
-            'weight': len(parts), 'tags': [f"fmt:{'1014' if blocked else 'vbs'}"]}
+            'weight': len(parts), 'tags': [f"fmt:{'1014' if blocked else 'vbs'}"] + (['real-file'] if tmpdir else [])}
 
 
 def model_line(case):
@@ -121,6 +140,11 @@ def explore(run, tier):
     for lens in fixed:
         for b in (0, 1):
             cases.append({'b': b, 'lens': lens})
+    # the same through REAL files on disk (a reader may ask the operating system about the file), a stride of cut positions
+    for lens in ([1004, 4], [500, 504, 1000], [2016, 1], [3000, 10]):
+        for b in (0, 1):
+            cases.append({'b': b, 'lens': lens, 'real': True, 'step': 53})
+            cases.append({'b': b, 'lens': lens, 'real': True, 'step': 1014})
     for _ in range(40 if tier == 'quick' else 400):
         k = rng.choice([1, 2, 3, 4, 6])
         lens = [rng.choice([1, 4, rng.randrange(1, 40), rng.randrange(400, 1100), rng.randrange(1000, 1020)])
